@@ -156,6 +156,7 @@ for _pid, _txt in {
 }.items():
     REGISTRY[_pid] = {"modules": _ROBOT_MODS, "verify_modules": ["robot", "selector"], "level": "proof", "level_text": _txt, "level_note": _ROBOT_NOTE,
                       "design_ref": f"DESIGN.md section 5 {_pid}"}
+REGISTRY["C05"]["verify_modules"] = ["robot", "selector", "precise_delay"]      # 'one iteration per control_loop_wait_time' rests on NotifierDelay (anchored file of C05)
 for _pid in ("C05", "C06"):
     REGISTRY[_pid]["standins"] = {"quick": {"bounded: generated robot definitions through the real _create_components: declaration order of components (base classes first), setup() once after all injection": [PY, "native/replay_c08.py"]}}
 REGISTRY["C14"] = {"modules": _ROBOT_MODS, "verify_modules": ["selector", "robot"], "level": "proof",
@@ -182,3 +183,4 @@ for _pid in ("C05", "C06"):
     REGISTRY[_pid]["module_groups"] = [_ROBOT_MODS, ["inject", "robotinit"]]
 REGISTRY["C08"]["module_groups"] = [["inject", "robotinit"]]
 REGISTRY["C10"]["module_groups"] = [_ROBOT_MODS, ["reset"], ["inject", "robotinit"]]
+REGISTRY["C05"]["standins"]["quick"]["bounded: real NotifierDelay on a fake HAL implementing the assumed contract, body-duration patterns (one iteration per period)"] = [PY, "native/replay_c16.py"]
